@@ -142,7 +142,8 @@ func toNativeContainer(n *Node, t Tree, slices bool, top bool) (interface{}, err
 }
 
 func toNativeList(d *Node, l []interface{}, slices bool) (interface{}, error) {
-	if slices || len(d.Keys) == 0 {
+	if slices || len(d.Keys) != 1 {
+		// (a Go map holds an entry under one key value; the library itself creates slices for other lists)
 		out := make([]map[interface{}]interface{}, 0, len(l))
 		for _, e := range l {
 			ne, err := toNativeContainer(d, e.(Tree), slices, false)
